@@ -5,7 +5,7 @@
 //!   drive sort <seed> <cases> <out.ndjson>
 use serde_json::{json, Value};
 use std::io::Write;
-use tdverif::cells::{CellT, Elem, Elem40, Tok, Zst, K32, W1K, W24, W4K};
+use tdverif::cells::{CellT, Elem, Elem40, Elem4K, Tok, Zst, K32, W1K, W24, W4K};
 use tdverif::hist::{event, index_args, Machine};
 use tdverif::util::{guarded, silence_panics, LenMode};
 use toodee::{SortOps, TooDee, TooDeeOps, TooDeeOpsMut};
@@ -64,7 +64,9 @@ fn hist<T: CellT + std::hash::Hash>(seed: u64, histories: usize, steps: usize, m
         } else if large {
             let a = 13 + rng.below(118);
             // often only a few lines in the other direction, so that histories reach "last line removed" on long lines
-            let b = if rng.chance(45) { 1 + rng.below(3) } else { 1 + rng.below(((if bulky { 700 } else { 2600 }) / a).clamp(1, 40)) };
+            let b = if rng.chance(45) && !(bulky && T::TRACKED) { 1 + rng.below(3) } else { 1 + rng.below(((if bulky && !T::TRACKED { 700 } else { 2600 }) / a).clamp(1, 40)) };
+            // (page-sized drop-tracking elements: always many lines, so that the array is megabytes large)
+            let b = if bulky && T::TRACKED { b.max(2200 / a) } else { b };
             if rng.chance(50) { (a, b) } else { (b, a) }
         } else if rng.chance(15) {
             (0, 0)
@@ -76,6 +78,25 @@ fn hist<T: CellT + std::hash::Hash>(seed: u64, histories: usize, steps: usize, m
         let a = json!({"nc": nc, "nr": nr, "items": fresh(nc * nr, &mut next_id)});
         let r = m.call("from_vec", &a, &[nc, nr], LenMode::True);
         emit(&m, "from_vec", &a, &r, &mut events);
+        if faults && large && !huge && rng.chance(35) && nr >= 2 {
+            // scripted opening of a large history in fault mode: exact capacity, then a row is inserted in the middle by an
+            // iterator that panics (or runs short) - a growth path that rebuilds the array elsewhere must stay panic-safe
+            let r = m.call("shrink_to_fit", &noarg, &[], LenMode::True);
+            emit(&m, "shrink_to_fit", &noarg, &r, &mut events);
+            let index = 1 + rng.below(nr - 1);
+            let a = json!({"index": index, "items": fresh(nc, &mut next_id)});
+            let f = json!({"kind": "panic_at", "site": "next", "k": rng.below(3), "lie": "none"});
+            tdverif::fault::arm(tdverif::fault::Site::IterNext, f["k"].as_u64().unwrap() as u32);
+            let supplied: Vec<u32> = a["items"].as_array().unwrap().iter().map(|v| v.as_u64().unwrap() as u32).collect();
+            m.in_fault = true;
+            let r = m.call("insert_row", &a, &[index], LenMode::True);
+            m.in_fault = false;
+            let fired = tdverif::fault::fired();
+            tdverif::fault::disarm();
+            let mut e = event::<T>(&m, "insert_row", &a, &r, Some(&f), fired, &[], &supplied);
+            e["case"] = json!(h);
+            events.push(e);
+        }
         if huge {
             // scripted opening: spare capacity for a line, then a line near the front is removed and its drain partly consumed
             let script: Vec<(&str, Value)> = if h % 3 == 0 {
@@ -395,6 +416,7 @@ fn main() {
                 "w4k" => hist::<W4K>(seed, histories, steps, maxdim, &mut out, faults),
                 "w24" => hist::<W24>(seed, histories, steps, maxdim, &mut out, faults),
                 "elem40" => hist::<Elem40>(seed, histories, steps, maxdim, &mut out, faults),
+                "elem4k" => hist::<Elem4K>(seed, histories, steps, maxdim, &mut out, faults),
                 "u32" => hist::<K32>(seed, histories, steps, maxdim, &mut out, faults),
                 _ => hist::<Elem>(seed, histories, steps, maxdim, &mut out, faults),
             }
